@@ -1106,6 +1106,176 @@ def run_grid_scenario(ctx, cs, S):
         shutil.rmtree(basedir, ignore_errors=True)
 
 
+# --- dirnode child-cap keys at the point of USE: directories built from another directory's listing ---------------
+#
+# A directory's packed contents hold, per child, salt + AES-CTR(key, write cap) + MAC with
+# key = H(child-cap tag, salt, write key of THE DIRECTORY THE ENTRY IS STORED IN) and salt = H(salt tag, write cap).
+# `DirectoryNode.list()` returns an AuxValueDict whose auxiliary values are the packed entries of the directory that
+# was read; that very mapping (unchanged, modified, copied) is a legal `initial_children` argument.  Whatever route a
+# directory was created or modified by, every rwcap field of its raw contents must decrypt, under the key the MODEL
+# derives for that directory's own write key and the entry's salt, to the child's write cap.
+
+def split_ns(data):
+    """strict split of a concatenation of netstrings"""
+    out, pos = [], 0
+    while pos < len(data):
+        colon = data.index(b":", pos)
+        n = int(data[pos:colon])
+        out.append(data[colon + 1:colon + 1 + n])
+        if data[colon + 1 + n:colon + 2 + n] != b",":
+            raise ValueError("malformed netstring")
+        pos = colon + 2 + n
+    return out
+
+
+DIRCOPY_ROUTES = ["create_dirnode(listing)", "create_dirnode(listing,MDMF)", "create_subdirectory(listing)",
+                  "create_subdirectory(listing,MDMF)", "nodemaker.create_new_mutable_directory(listing)",
+                  "create_dirnode(modified listing)", "create_dirnode(dict(listing))", "modified in place",
+                  "create_dirnode(listing of a copy)"]
+
+
+def make_dircopy_scenario(rng):
+    routes = [r for r in DIRCOPY_ROUTES if rng.random() < 0.6] or [rng.choice(DIRCOPY_ROUTES)]
+    rng.shuffle(routes)
+    return {"type": "dircopy", "seed": rng.randrange(10 ** 6), "src_mdmf": rng.random() < 0.4, "routes": routes,
+            "children": sorted(rng.sample(["m1", "m2", "imm", "sub", "ro"], rng.randrange(2, 6))),
+            "data": _h(rbytes(rng, rng.choice([60, 300])))}
+
+
+def run_dircopy_scenario(ctx, cs, S):
+    import grid
+    import shutil
+    from allmydata.immutable import upload
+    from allmydata.mutable.publish import MutableData
+    from allmydata.interfaces import MDMF_VERSION, SDMF_VERSION
+    from allmydata.crypto import aes
+    from props import _mutable_common
+    basedir = grid.fresh_dir("c17dir")
+    try:
+        with grid.Runtime(seed=S["seed"], policy="fifo") as rt:
+            g = grid.Grid(basedir, rt, num_servers=4, num_clients=1, k=1, happy=1, n=2)
+            c = g.clients[0]
+            nkey = [0]
+
+            def kp():
+                nkey[0] += 1
+                return _mutable_common.keypair(nkey[0] - 1)
+
+            kids, expected = {}, {}
+            m1 = rt.wait(c.create_mutable_file(MutableData(b"mutable one"), unique_keypair=kp()))
+            m2 = rt.wait(c.create_mutable_file(MutableData(b"mutable two"), unique_keypair=kp()))
+            if "m1" in S["children"]:
+                kids[u"m1"] = (m1, {})
+            if "m2" in S["children"]:
+                kids[u"m2"] = (m2, {"k": "v"})
+            if "imm" in S["children"]:
+                res = rt.wait(c.upload(upload.Data(_u(S["data"]), convergence=b"c" * 16)))
+                kids[u"imm"] = (c.create_node_from_uri(res.get_uri()), {})
+            if "sub" in S["children"]:
+                kids[u"sub"] = (rt.wait(c.create_dirnode(unique_keypair=kp())), {})
+            if "ro" in S["children"]:
+                kids[u"ro"] = (c.create_node_from_uri(m2.get_readonly_uri()), {})
+            for name, (node, _md) in kids.items():
+                expected[name] = node.get_write_uri() or b""
+
+            def dir_writekey(dn):
+                # URI:DIR2:<b32 writekey>:<b32 fingerprint> / URI:DIR2-MDMF:… (docs/specifications/uri.rst)
+                parts = dn.get_uri().split(b":")
+                if parts[0] != b"URI" or parts[1] not in (b"DIR2", b"DIR2-MDMF"):
+                    raise ValueError("not a directory write cap: %r" % (dn.get_uri()[:20],))
+                return unb32(parts[2])
+
+            def check_directory(route, dn, want):
+                args = {"history": S, "step": route}
+                raw = rt.wait(dn._node.download_best_version())
+                wk = dir_writekey(dn)
+                seen = {}
+                for entry in split_ns(raw):
+                    name, ro_uri, rwcapdata, metadata = split_ns(entry)
+                    name = name.decode("utf-8")
+                    salt, crypttext, mac = rwcapdata[:16], rwcapdata[16:-32], rwcapdata[-32:]
+                    seen[name] = True
+                    rw = want.get(name)
+                    if rw is None:
+                        continue
+                    rsalt = REF1["mutable_rwcap_salt_hash"](rw)
+                    rkey = REF2["mutable_rwcap_key_hash"](rsalt, wk)
+                    key_here = REF2["mutable_rwcap_key_hash"](salt, wk)       # spec key for THIS directory and the entry's salt
+                    plain = aes.decrypt_data(aes.create_decryptor(key_here), crypttext)
+                    impl = "%s:%s" % (hx(salt), hx(key_here) if plain == rw else "key-does-not-decrypt")
+                    cs.add("use dircopy %s: rwcap key" % route, "dirkey %s %s" % (hx(wk), hx(rw)), impl,
+                           "%s:%s" % (hx(rsalt), hx(rkey)), args=dict(args, child=name),
+                           signature="dirnode-rwcap-key-differs:" + route)
+                    rmac = hashlib.sha256(bytes(x ^ 0x5c for x in key_here) + hashlib.sha256(
+                        bytes(x ^ 0x36 for x in key_here) + salt + crypttext).digest()).hexdigest()
+                    cs.add("use dircopy %s: rwcap mac" % route, "dirmac %s %s %s" % (hx(key_here), hx(salt), hx(crypttext)),
+                           hx(mac), rmac, args=dict(args, child=name), signature="dirnode-rwcap-mac-differs:" + route)
+                if sorted(seen) != sorted(want):
+                    ctx.violation("directory does not hold the children it was given",
+                                  {"kind": "use dircopy children", "line": "dirkey %s -" % hx(wk), "args": args},
+                                  "dirnode-children-differ:" + route, {"seen": sorted(seen), "want": sorted(want)})
+                # what the production reader, holding the new directory's write cap, hands out
+                listing = rt.wait(c.create_node_from_uri(dn.get_uri()).list())
+                for name, rw in want.items():
+                    got = (listing[name][0].get_write_uri() or b"") if name in listing else b"<missing>"
+                    ctx.case(("dircopy-reader", route, name, rw))
+                    if got != rw:
+                        ctx.violation("the production reader returns a different write cap for a child than the one stored",
+                                      {"kind": "use dircopy reader", "line": "dirkey %s %s" % (hx(wk), hx(rw)),
+                                       "args": dict(args, child=name)}, "dirnode-rwcap-reader-differs:" + route,
+                                      {"got": hx(got[:40]), "want": hx(rw[:40])})
+                ctx.count("dircopy:" + route)
+
+            src_ver = MDMF_VERSION if S["src_mdmf"] else SDMF_VERSION
+            a = rt.wait(c.create_dirnode(dict(kids), version=src_ver, unique_keypair=kp()))
+            check_directory("create_dirnode(dict)", a, expected)
+            b = None
+            for route in S["routes"]:
+                listing = rt.wait(a.list())
+                if route == "create_dirnode(listing)":
+                    check_directory(route, rt.wait(c.create_dirnode(listing, unique_keypair=kp())), expected)
+                elif route == "create_dirnode(listing,MDMF)":
+                    check_directory(route, rt.wait(c.create_dirnode(listing, version=MDMF_VERSION, unique_keypair=kp())), expected)
+                elif route in ("create_subdirectory(listing)", "create_subdirectory(listing,MDMF)"):
+                    if b is None:
+                        b = rt.wait(c.create_dirnode(unique_keypair=kp()))
+                    ver = MDMF_VERSION if route.endswith("MDMF)") else None
+                    sub = rt.wait(b.create_subdirectory(u"copy-%d" % nkey[0], listing, mutable_version=ver))
+                    check_directory(route, sub, expected)
+                elif route == "nodemaker.create_new_mutable_directory(listing)":
+                    check_directory(route, rt.wait(c.nodemaker.create_new_mutable_directory(listing, keypair=kp())), expected)
+                elif route == "create_dirnode(modified listing)":
+                    want = dict(expected)
+                    names = sorted(listing)
+                    del listing[names[0]]; want.pop(names[0])
+                    node, md = listing[names[-1]]
+                    listing[names[-1]] = (node, dict(md, touched=True))          # __setitem__ clears the cached entry
+                    listing[u"extra"] = (m1, {}); want[u"extra"] = m1.get_write_uri()
+                    check_directory(route, rt.wait(c.create_dirnode(listing, unique_keypair=kp())), want)
+                elif route == "create_dirnode(dict(listing))":
+                    check_directory(route, rt.wait(c.create_dirnode(dict(listing), unique_keypair=kp())), expected)
+                elif route == "create_dirnode(listing of a copy)":
+                    copy1 = rt.wait(c.create_dirnode(dict(listing), unique_keypair=kp()))
+                    check_directory(route, rt.wait(c.create_dirnode(rt.wait(copy1.list()), unique_keypair=kp())), expected)
+                elif route == "modified in place":
+                    want = dict(expected)
+                    rt.wait(a.set_node(u"added", m2)); want[u"added"] = m2.get_write_uri()
+                    first = sorted(expected)[0]
+                    rt.wait(a.delete(first)); want.pop(first)
+                    check_directory(route, a, want)
+                    expected = want
+            g.close()
+    finally:
+        shutil.rmtree(basedir, ignore_errors=True)
+
+
+def gen_dircopy(ctx, cs, n):
+    for i in range(n):
+        S = make_dircopy_scenario(ctx.rng)
+        attempt(ctx, "dirnode child-cap keys at use", lambda: run_dircopy_scenario(ctx, cs, S))
+        ctx.count("use:dircopy scenarios")
+
+
 def gen_grid_use(ctx, cs, n):
     for i in range(n):
         S = make_grid_scenario(ctx.rng)
@@ -1120,7 +1290,7 @@ def gen_grid_use(ctx, cs, n):
 
 
 HISTORY_RUNNERS = {"objects": run_object_history, "selector": run_selector_history, "dirnode": run_dirnode_history,
-                   "pool": run_pool_history, "grid": run_grid_scenario}
+                   "pool": run_pool_history, "grid": run_grid_scenario, "dircopy": run_dircopy_scenario}
 
 
 def gen_histories(ctx, cs, n):
@@ -1216,6 +1386,8 @@ def extracted_constants_monitor(ctx):
 #                     different seeds (and the converse), in both orders
 #   corpus:filtered (seeded C17-c) — uploader tracker tables / allocate_buckets traffic when a candidate server is filtered
 #                     out first / in the middle / last; a grid with a read-only server; add-lease and the leases on disk
+#   corpus:dircopy (seeded C17-d) — directories created from another directory's listing (AuxValueDict) by every route,
+#                     modified copies, in-place modification: each rwcap field under the NEW directory's child-cap key
 #   corpus:caps, corpus:dirnode — cap classes and dirnode child-cap keys on crossed arguments (call-site mutations of round 1)
 
 def _pat(start, n, step=1):
@@ -1292,6 +1464,10 @@ def fixed_corpus(ctx, cs):
           "uris": [_h(b"URI:SSK:" + b32(_pat(0x21, 16)) + b":" + b32(_pat(0x51, 32))), _h(b"URI:CHK:short"), _h(b"")],
           "calls": [[0, 0], [1, 0], [0, 1], [1, 1], [0, 2], [0, 0]]}
     attempt(ctx, "corpus:dirnode", lambda: run_dirnode_history(ctx, cs, Hd))
+    # -- C17-d: a directory built from another directory's listing must encrypt under ITS OWN write key (all routes)
+    Sd = {"type": "dircopy", "seed": 17, "src_mdmf": False, "routes": list(DIRCOPY_ROUTES),
+          "children": ["imm", "m1", "m2", "ro", "sub"], "data": _h(_pat(0x20, 200, 3))}
+    attempt(ctx, "corpus:dircopy", lambda: run_dircopy_scenario(ctx, cs, Sd))
     ctx.count("corpus cases", len(cs.rows))
 
 
@@ -1311,6 +1487,7 @@ def run(ctx):
              ("uploader tracker tables", lambda: gen_trackers(ctx, cs, ctx.budget(150, 5000))),
              ("call-site histories", lambda: gen_histories(ctx, cs, ctx.budget(40, 1200))),
              ("secrets at the point of use (in-process grid)", lambda: gen_grid_use(ctx, cs, ctx.budget(8, 150))),
+             ("dirnode child-cap keys at the point of use (in-process grid)", lambda: gen_dircopy(ctx, cs, ctx.budget(2, 40))),
              ("derive_mutable_keys", lambda: gen_mutable_keys(ctx, cs, ctx.budget(2, 12)))]
     if os.environ.get("VERIF_CORPUS_ONLY") == "1":
         ctx.note("VERIF_CORPUS_ONLY=1: only the fixed corpus was run (%d cases)" % len(cs.rows))
